@@ -148,7 +148,7 @@ func init() {
 		ID:   "C09",
 		Pkgs: []pkgRef{semver},
 		Assume: []string{
-			"partial: what a span contains under interval (prerelease-inclusive) matching, and what newSpan builds (unit spans closed, vector spans strictly ordered with the given flags, coinciding ends with an open flag give the empty span); Intersect, canon, Union, Empty and the membership laws themselves are not covered",
+			"partial: what a span contains under interval (prerelease-inclusive) matching, and what newSpan builds (unit spans closed, vector spans strictly ordered with the given flags, coinciding ends with an open flag give the empty span); the bound choice of Intersect and two merge steps of canon as site assertions; that canon's merged span adds nothing, canon's skip logic, Union, Empty and normal-mode matching are not covered",
 			"compare is used by symbol (its order laws are C01)",
 		},
 	}
